@@ -667,6 +667,12 @@ class Executor:
         st.pc.append(tb != 0)
 
     def compare(self, st, op, a, b, node):
+        # abstract objects with overloaded rich comparisons (modeling
+        # functions: f <= a builds a constraint object)
+        if hasattr(a, 'abs_cmp'):
+            return a.abs_cmp(self, st, op, b, node, False)
+        if hasattr(b, 'abs_cmp'):
+            return b.abs_cmp(self, st, op, a, node, True)
         if isinstance(op, (ast.Is, ast.IsNot)):
             r = self.identical(st, a, b)
             if isinstance(op, ast.IsNot):
@@ -1236,6 +1242,8 @@ class Executor:
             for op, c in zip(n.ops, n.comparators):
                 right = self.ev(c, st, fid)
                 r = self.compare(st, op, left, right, n)
+                if len(n.ops) == 1 and hasattr(r, 'abs_object'):
+                    return r
                 if r is False:
                     return False
                 if r is not True:
@@ -1875,7 +1883,10 @@ class Executor:
             idx = self.ev_index(t.slice, st, fid)
             cur = self.getitem(st, base, idx, t)
             v = self.ev(s.value, st, fid)
-            if isinstance(cur, Ref):
+            if isinstance(cur, Ref) and st.heap[cur.oid].kind == 'list':
+                r = self.lib.list_inplace(self, st, type(s.op).__name__, cur,
+                                          v, s)
+            elif isinstance(cur, Ref):
                 r = self.lib.inplace(self, st, type(s.op).__name__, cur, v, s)
             else:
                 r = self.binop(st, s.op, cur, v, s)
@@ -1884,7 +1895,10 @@ class Executor:
             base = self.ev(t.value, st, fid)
             cur = self.getattr(st, base, t.attr, t)
             v = self.ev(s.value, st, fid)
-            if isinstance(cur, Ref):
+            if isinstance(cur, Ref) and st.heap[cur.oid].kind == 'list':
+                r = self.lib.list_inplace(self, st, type(s.op).__name__, cur,
+                                          v, s)
+            elif isinstance(cur, Ref):
                 r = self.lib.inplace(self, st, type(s.op).__name__, cur, v, s)
             else:
                 r = self.binop(st, s.op, cur, v, s)
@@ -2052,7 +2066,12 @@ class Executor:
         st.parent[root] = None
         setup(self, st, root, fn)
         self.declare_locals(st, root, fn)
-        outs = self.exec_block(fn.body, st, root)
+        # contract option: verify a mechanically extracted part of the body
+        # (a list of consecutive statements chosen by structural anchors);
+        # what precedes it is then represented by the scenario's setup
+        sl = self.cfg.get('body_slice')
+        body = sl(fn) if sl else fn.body
+        outs = self.exec_block(body, st, root)
         res = []
         for o in outs:
             if o.kind == 'fall':
